@@ -397,6 +397,32 @@ impl Oracle {
             }
         }
 
+        // ---- C33: a node purges only what is committed and covered by a snapshot it holds
+        {
+            let boundary = purge_boundary(v);
+            if boundary > 0 {
+                // committed = some leader advanced its commit index over it (a follower that
+                // installed a snapshot may not have raised its own commit index yet)
+                let committed_upto = self.committed.keys().next_back().copied().unwrap_or(0).max(v.commit);
+                if boundary > committed_upto {
+                    let (b2, c2) = (boundary, committed_upto);
+                    self.violate(
+                        "C33",
+                        format!("commit{}", v.id),
+                        format!("node {} purged its log up to index {} although only {} entries are committed", v.id, b2, c2),
+                    );
+                }
+                if boundary > v.snapshot_li {
+                    let (b2, s2) = (boundary, v.snapshot_li);
+                    self.violate(
+                        "C33",
+                        format!("snap{}", v.id),
+                        format!("node {} purged its log up to index {} but the snapshot it holds only covers index {}", v.id, b2, s2),
+                    );
+                }
+            }
+        }
+
         // ---- C04 (single log part): gap-free and term-monotone
         let mut prev: Option<&LogEnt> = None;
         for e in &v.log {
